@@ -60,7 +60,7 @@ func c15Generate(r *rand.Rand) (*c15rec, error) {
 		nf = 0
 	}
 	var tab []gts.Feature
-	keys := []string{"gene", "CDS", "misc_feature"}
+	keys := []string{"gene", "CDS", "misc_feature", "5'UTR"}
 	for i := 0; i < nf; i++ {
 		loc := gen.RandLoc(r, o)
 		if _, ok := loc.(gts.Ordered); ok {
@@ -1173,7 +1173,7 @@ func c15Locator(r *rand.Rand, rec *c15rec) string {
 		if rec.corpus {
 			x = []string{"CDS", "gene", "/gene=[ABC]$", "CDS/product=protein", "source"}[r.Intn(5)]
 		} else {
-			x = []string{"gene", "CDS", "misc_feature"}[r.Intn(3)]
+			x = []string{"gene", "CDS", "misc_feature", "5'UTR"}[r.Intn(4)]
 		}
 	case 4:
 		if rec.corpus {
